@@ -131,9 +131,10 @@ class C10:
             return ["rule", "P%d" % st["n"]]
         if r < 0.36:
             st["n"] += 1
+            ch = "e" if rng.random() < 0.3 else "o"  # stderr is redirected like stdout
             if rng.random() < 0.35:
-                return ["stdoutp", "P%d part " % st["n"]]  # no newline: stays pending in the proxy
-            return ["stdout", "P%d out %s" % (st["n"], rng.choice(["plain", "two words", "x"]))]
+                return ["stdoutp", "P%d part " % st["n"], ch]  # no newline: stays pending in the proxy
+            return ["stdout", "P%d out %s" % (st["n"], rng.choice(["plain", "two words", "x"])), ch]
         if r < 0.44:
             return ["sleep", rng.choice([0.01, 0.05, 0.3, 1.1])]
         if r < 0.47:
@@ -275,7 +276,7 @@ class Program:
         self.tasks = []  # progress model: dicts
         self.model_before = None
         self.in_client_op = False
-        self.pending_out = ""  # partial line written to the redirected stdout, not yet printed
+        self.pending_out = {"o": "", "e": ""}  # partial line written to the redirected stdout / stderr, not yet printed
         self.frame_at_op_begin = None
         self.probes = {"restart": 0, "render_calls": 0, "body_fault_fired": 0, "render_fault_fired": 0, "base_exception_faults": 0,
                        "fault_in_helper_thread": 0, "print_while_live": 0, "progress_stock_columns": 0, "stdout_partial_writes": 0, "partial_line_pending_at_stop": 0, "stdout_lines": 0, "post_probe_ok": 0}
@@ -516,14 +517,15 @@ class Program:
         if self.kind == "progress":
             self._mirror(lambda m: m.refresh())  # stop() refreshes one last time
         stages = [("final",), ("erase",) if self.cfg["transient"] else ("freeze",)]
-        if self.pending_out:
-            # redirected output is never lost: the partial line still pending in the proxy comes
-            # out as a line of its own before the display takes its last frame
-            from rich.text import Text
+        # redirected output is never lost: the partial lines still pending in the proxies come
+        # out as lines of their own (stdout's first) before the display takes its last frame
+        for ch in "eo":
+            if self.pending_out[ch]:
+                from rich.text import Text
 
-            self.probes["partial_line_pending_at_stop"] += 1
-            line, self.pending_out = self.pending_out, ""
-            stages.insert(0, ("print", self._print_rows(lambda c: c.print(Text(line)))))
+                self.probes["partial_line_pending_at_stop"] += 1
+                line, self.pending_out[ch] = self.pending_out[ch], ""
+                stages.insert(0, ("print", self._print_rows(lambda c: c.print(Text(line)))))
         o.begin_op("stop", stages)
 
     def _op_stop_end(self):
@@ -572,25 +574,29 @@ class Program:
             o.end_op()
         elif k == "stdoutp":
             o.begin_op(op, [])
+            ch = op[2] if len(op) > 2 else "o"
             if self.started and self.cfg["redirect"]:
-                self.pending_out += op[1]
+                self.pending_out[ch] += op[1]
                 self.probes["stdout_partial_writes"] += 1
-            sys.stdout.write(op[1])
+            (sys.stderr if ch == "e" else sys.stdout).write(op[1])
             o.end_op()
         elif k == "stdout":
             redirected = self.started and self.cfg["redirect"]
+            ch = op[2] if len(op) > 2 else "o"
             if redirected:
                 from rich.text import Text
 
-                line = self.pending_out + op[1]
-                self.pending_out = ""
+                line = self.pending_out[ch] + op[1]
+                self.pending_out[ch] = ""
+                if ch == "e":
+                    self.probes["stderr_lines"] = self.probes.get("stderr_lines", 0) + 1
                 rows = self._print_rows(lambda c: c.print(Text(line)))
                 o.tokens.append(op[1].split(" ")[0])
                 self.probes["stdout_lines"] += 1
                 o.begin_op(op, [("print", rows)])
             else:
                 o.begin_op(op, [])
-            sys.stdout.write(op[1] + "\n")
+            (sys.stderr if ch == "e" else sys.stdout).write(op[1] + "\n")
             o.end_op()
         elif k == "sleep":
             o.begin_op(op, [])
